@@ -299,7 +299,7 @@ func genHistory(t *tape.Tape, uniq string) histProg {
 	case 4:
 		return histProg{kind: "import", faultAt: -1, src: []string{"import(\"dummy\")\n", "invite!(\"dummy\")\n", "import(\"nosuchmodule\")\n"}[t.Intn(3)]}
 	case 5:
-		return histProg{kind: "evalenv", faultAt: -1, src: fmt.Sprintf("\"ea_%s := 1; px := 2\".evalEnv.p\n\"px := 5; px\".eval.p\n", uniq)}
+		return histProg{kind: "evalenv", faultAt: -1, src: fmt.Sprintf("\"ea_%s := 1; px := 2\".evalEnv.p\n\"px := 5; px\".eval.p\npx := 7\npf := {|a| a + 1}\nimport(\"dummy\")\n", uniq)}
 	case 6:
 		return histProg{kind: "proto-extend", faultAt: -1,
 			src: []string{
@@ -418,6 +418,9 @@ var probes = []probeProg{
 	{"callee-name", "S(1)\n", ""},
 	{"try", "5.try.{|n| n / 0}.A.p\n5.try.{|n| hx1}.err.p\n", ""},
 	{"evalenv", "\"a := 1\".evalEnv.p\n\"px\".eval\n", ""},
+	// code given to evalEnv / an imported module sees the built-ins and nothing of any program
+	{"evalenv-unbound", "\"before\".p\n\"px + 1\".evalEnv\n\"after\".p\n", ""},
+	{"evalenv-unbound2", "q := \"pf(1)\".evalEnv\nq.p\n", ""},
 	{"evalenv-keys", "\"zz_probe_key := 1; yy_probe_key := 2\".evalEnv@{|k, v| \"#{k}=#{v} #{k.proto == Str}\"}.p\n", ""},
 	{"builtin-names-in-use", "[Int.keys.len > 0, [1].len, \"ab\".len, assertEq(1, 1), Kernel.keys.len > 0, true, nil, Err.new(\"e\").type == Err].p\nassert(false)\n", ""},
 	{"rich-syntax", richSyntax, ""},
